@@ -144,10 +144,40 @@ def _is_one_test(par, n):
 
 
 RANGE_TABLE = {
-    ("decomposednamedtensor_from_classical::_ravel", "ndim"): "length of the bracketed coordinate axis = number of bracketed target axes (fixed by the description through the stage-3 equation), not a data length",
-    ("elementary_from_classical::get_at.get_at", "coord.shape[0]"): "number of coordinate components = number of bracketed target axes (fixed by the description through the stage-3 equation), not a data length",
-    ("elementary_from_classical::update_at.update_at", "coord.shape[0]"): "number of coordinate components = number of bracketed target axes (fixed by the description through the stage-3 equation), not a data length",
+    ("decomposednamedtensor_from_classical::_ravel", "((tuple((<v>.value for <v> in <loop element>)))[(_expr_to_axis(<loop element>))[0]])"): "length of the bracketed coordinate axis = number of bracketed target axes (fixed by the description through the stage-3 equation), not a data length",
+    ("elementary_from_classical::get_at.get_at", "<loop element>.shape[0]"): "number of coordinate components = number of bracketed target axes (fixed by the description through the stage-3 equation), not a data length",
+    ("elementary_from_classical::update_at.update_at", "<loop element>.shape[0]"): "number of coordinate components = number of bracketed target axes (fixed by the description through the stage-3 equation), not a data length",
 }
+
+
+def p_is_local(f, name):
+    return any(isinstance(x, ast.Name) and x.id == name and isinstance(x.ctx, ast.Store) for x in walk_no_nested(f.node))
+
+
+def _anon(f, expr, depth=0):
+    """the bound of a range() with its names replaced by what they are (loop element / parameter / comprehension
+    variable / a local's own definition, two levels deep): the table is keyed by this, so renaming a variable neither
+    loses nor gains an exemption"""
+    comp_vars = {t.id for c in ast.walk(expr) if isinstance(c, ast.comprehension) for t in ast.walk(c.target) if isinstance(t, ast.Name)}
+
+    class R(ast.NodeTransformer):
+        def visit_Name(self, n):
+            if n.id in comp_vars:
+                return ast.Name(id="<v>", ctx=ast.Load())
+            loop = getattr(expr, "_parent", None)
+            while loop is not None and loop is not f.node:
+                if isinstance(loop, ast.For) and any(isinstance(t, ast.Name) and t.id == n.id for t in ast.walk(loop.target)):
+                    return ast.Name(id="<loop element>", ctx=ast.Load())
+                loop = getattr(loop, "_parent", None)
+            if n.id in f.params:
+                return ast.Name(id="<param>", ctx=ast.Load())
+            defs = [a for a in walk_no_nested(f.node) if isinstance(a, ast.Assign) and len(a.targets) == 1 and isinstance(a.targets[0], ast.Name) and a.targets[0].id == n.id]
+            if len(defs) == 1 and depth < 2:
+                return ast.Name(id="(" + _anon(f, defs[0].value, depth + 1) + ")", ctx=ast.Load())
+            return ast.Name(id="<local>", ctx=ast.Load()) if defs or p_is_local(f, n.id) else n  # globals / builtins keep their names
+
+    clone = ast.parse(norm(expr), mode="eval").body
+    return norm(R().visit(clone))
 
 
 def _tri(vals):
@@ -198,17 +228,17 @@ def r2(p, rep):
             if isinstance(n, ast.Call) and isinstance(n.func, ast.Name) and n.func.id == "range" and not p.is_local(f.node, "range"):
                 n_range += 1
                 for a in n.args:
-                    s = _size_expr(a)
+                    s = _size_expr(a, _tainted_names(p, f))
                     key = f"{f.qualname}:range({norm(a)[:40]})"
                     if s is not None:
-                        tab = next((r for (q, ex), r in RANGE_TABLE.items() if f.qualname.endswith(q) and norm(a) == ex), None)
+                        tab = next((r for (q, ex), r in RANGE_TABLE.items() if f.qualname.endswith(q) and _anon(f, a) == ex), None)
                         if tab:
                             rep.exempt("C17.R2", key, site, tab)
                         else:
                             rep.violation("C17.R2", key, site, f"`range({norm(a)})` iterates over an axis length while tracing: the number of emitted backend calls grows with the tensor size")
                         continue
                     rl = _rank_like(p, f, a)
-                    tab = next((r for (q, ex), r in RANGE_TABLE.items() if f.qualname.endswith(q) and norm(a) == ex), None)
+                    tab = next((r for (q, ex), r in RANGE_TABLE.items() if f.qualname.endswith(q) and _anon(f, a) == ex), None)
                     if rl is False and tab:
                         rep.exempt("C17.R2", key, site, tab)
                     elif rl is False:
